@@ -33,7 +33,10 @@ func newResolver(v string) (Resolver, error) {
 // Match returns true if the rule matches domain.
 func (r Resolver) Match(domain string) bool {
 	if r.Domain != "" {
-		if domain != r.Domain && !isSubDomain(domain, r.Domain) {
+		// DNS names are case-insensitive (and clients may use 0x20 encoding).
+		domain = strings.ToLower(domain)
+		ruleDomain := strings.ToLower(r.Domain)
+		if domain != ruleDomain && !isSubDomain(domain, ruleDomain) {
 			return false
 		}
 	}
